@@ -20,7 +20,13 @@
 
    Theorems about complete runs carry the guard [oof = false] ("the run did not stop on fuel"); the
    correspondence run checks that guard on every generated case (FUEL = 4000).  A closed-form fuel bound
-   (DESIGN.md fuel_sufficient) is not proved; dfs_fuel_monotone is what the other proofs need. *)
+   (DESIGN.md fuel_sufficient) is not proved (NOTES.md says why); dfs_fuel_monotone is what the other proofs need.
+
+   Round 2: programs may call DelayManager.add/reset/remove/run_now and SwitchController.process_switch from inside a
+   handler (inline_calls_never_dispatch), expiring delays are contexts (every_context_is_drained), posted _min_priority
+   with blocking facilities (in handlers_once_in_priority_order and the min_priority theorems), remove_handler_by_event /
+   remove_all_handlers_for_event (covered by the registry invariant and the snapshot theorems), queue events
+   (the queue_ theorems). *)
 From Common Require Import Prelude.
 From Coq Require Import Sorting.Sorted Sorting.Permutation.
 From C01 Require Import Model Lemmas.
@@ -28,14 +34,19 @@ Open Scope Z_scope.
 
 (* ---- (a) handlers of one dispatch -------------------------------------------------------------- *)
 
-(* One dispatch of a plain event in a reachable state: the observations it adds are exactly the handlers
+(* One dispatch of a plain event in a reachable state: the handler invocations it adds are exactly the handlers
    registered when it begins (the snapshot: handlers added during the dispatch are not called, handlers
-   removed during it still are), filtered by their condition on the merged kwargs, in list order; that
-   list is strictly sorted by (priority descending, registration order) and has no duplicates. *)
+   removed during it still are), minus the handlers with a blocking facility whose priority is below the posted
+   _min_priority, filtered by their condition on the merged kwargs, in list order; that list is strictly sorted by
+   (priority descending, registration order) and has no duplicates.  The only other observations of the dispatch
+   are callbacks that a handler runs inline (run_now, process_switch).
+   [script_plain sc]: no handler returns {'_min_priority': ...} (then the kwargs of a plain event are the posted ones
+   for the whole dispatch).  For every script and every event type see dispatch_calls_subsequence_of_snapshot. *)
 Theorem handlers_once_in_priority_order :
-  forall fast sc p s, reg_ok s -> q_ty p = TNone ->
+  forall fast sc p s, script_plain sc = true -> reg_ok s -> q_ty p = TNone ->
     let snap := snapshot (q_ev p) s in
-    out (process fast sc p s) = out s ++ expected_invocations (q_ev p) (q_kw p) snap /\
+    (exists o, out (process fast sc p s) = out s ++ o /\ Forall (is_invoke (q_ev p)) o /\
+               invokes o = expected_invocations (q_ev p) (q_kw p) snap) /\
     sorted_ps snap /\ NoDup snap.
 Proof. exact handlers_once_l. Qed.
 Print Assumptions handlers_once_in_priority_order.
@@ -44,6 +55,20 @@ Example handlers_once_hypotheses_satisfiable :
   reg_ok ex_state /\ q_ty ex_post = TNone /\ map h_key (snapshot (q_ev ex_post) ex_state) = [3; 1].
 Proof. exact ex_handlers_hyp. Qed.
 Print Assumptions handlers_once_hypotheses_satisfiable.
+
+Example handlers_once_script_plain_satisfiable : script_plain ex_script = true /\ script_plain mp_script = true.
+Proof. split; reflexivity. Qed.
+Print Assumptions handlers_once_script_plain_satisfiable.
+
+(* EVERY event type (plain, boolean with abort, relay, queue) and EVERY script (also handlers that return
+   _min_priority): the handlers called in one dispatch are a subsequence of the snapshot taken when it begins - each at
+   most once, in list order, i.e. (with registry_sorted_invariant) in descending priority *)
+Theorem dispatch_calls_subsequence_of_snapshot :
+  forall fast sc p s,
+    exists o called, out (process fast sc p s) = out s ++ o /\
+                     sublist called (snapshot (q_ev p) s) /\ map okey (invokes o) = map h_key called.
+Proof. exact process_sub. Qed.
+Print Assumptions dispatch_calls_subsequence_of_snapshot.
 
 (* [reg_ok] (every handler list strictly sorted, sequence numbers below the counter) is an invariant *)
 Theorem registry_sorted_invariant :
@@ -59,17 +84,17 @@ Print Assumptions registry_sorted_preserved_by_dispatch.
 (* add_handler (append, then list.sort(key=priority, reverse=True)) = stable insertion: the new handler
    goes behind every handler of greater or equal priority and before the first one of smaller priority *)
 Theorem add_handler_is_stable_insert :
-  forall key e pid prio hk c s, reg_ok s ->
-    let h := mkH key pid prio (kw_norm hk) c (nseq s) in
+  forall key e pid prio hk c bf s, reg_ok s ->
+    let h := mkH key pid prio (kw_norm hk) c bf (nseq s) in
     exists a b, snapshot e s = a ++ b /\
-                snapshot e (add_handler key e pid prio hk c s) = a ++ h :: b /\
+                snapshot e (add_handler key e pid prio hk c bf s) = a ++ h :: b /\
                 Forall (fun x => h_prio h <= h_prio x) a /\
                 match b with [] => True | y :: _ => h_prio y < h_prio h end.
 Proof. exact add_handler_is_stable_insert_l. Qed.
 
 Example add_handler_hypotheses_satisfiable :
   reg_ok ex_state /\ map h_key (snapshot 1 ex_state) = [3; 1] /\
-  map h_key (snapshot 1 (add_handler 9 1 1 2 [] None ex_state)) = [3; 9; 1].
+  map h_key (snapshot 1 (add_handler 9 1 1 2 [] None 0 ex_state)) = [3; 9; 1].
 Proof. exact ex_add_hyp. Qed.
 Print Assumptions add_handler_hypotheses_satisfiable.
 Print Assumptions add_handler_is_stable_insert.
@@ -96,7 +121,8 @@ Example remove_by_method_on_repeated_registrations :
 Proof. exact ex_remove_method. Qed.
 Print Assumptions remove_by_method_on_repeated_registrations.
 
-(* any event type: during a dispatch only handlers of that event run (serial: no nesting, no interleaving) *)
+(* any event type: during a dispatch only handlers of that event run, and callbacks they run inline (serial: no
+   nesting of dispatches, no interleaving); for a queue event nothing runs inside process_event_queue *)
 Theorem dispatch_is_one_segment :
   forall fast sc p s, exists o, out (process fast sc p s) = out s ++ o /\ Forall (is_invoke (q_ev p)) o.
 Proof. exact dispatch_is_segment_l. Qed.
@@ -179,7 +205,7 @@ Print Assumptions no_callback_during_dispatch.
 (* after p and everything p transitively posted has been dispatched, p's callback is still waiting;
    by dispatch_refines_dfs it is popped only when a whole dfs has finished *)
 Theorem callback_after_closure :
-  forall fast sc f p cb s, q_cb p = Some cb ->
+  forall fast sc f p cb s, q_cb p = Some cb -> q_ty p <> TQueue ->
     exists k l o, cbq (dfs fast sc (S f) [p] s) = l ++ (q_id p, cb, k) :: cbq s /\
                   out (dfs fast sc (S f) [p] s) = out s ++ o /\ cbids o = [].
 Proof. exact callback_after_closure_l. Qed.
@@ -198,15 +224,14 @@ Proof. exact every_event_once_l. Qed.
 Print Assumptions every_queued_event_dispatched_once_partial.
 
 Example run_completes_on_posting_tree :
-  let s := run_turns true ex_script 50 [10] init in
+  let s := run_turns true ex_script 50 [TRun 10] init in
   oof s = false /\
-  out s = [Ctx 10;
+  out s = [Quiet 0 0; Ctx 10;
            Invoke 3 3 1 [(1, VZ 1)]; Invoke 1 1 1 [(1, VZ 1)]; Invoke 2 2 1 [(1, VZ 7)];
            Invoke 4 4 2 [];
            Invoke 5 5 3 [(2, VB true)];
            Invoke 5 5 3 [];
-           Callback 0 20 [(1, VZ 1)];
-           Quiet 0 0].
+           Callback 0 20 [(1, VZ 1)]] /\ evq s = [] /\ cbq s = [].
 Proof. exact ex_run. Qed.
 Print Assumptions run_completes_on_posting_tree.
 
@@ -221,10 +246,143 @@ Print Assumptions post_is_queued_iff.
 (* the recorded finding: post(e) followed by add_handler(e, h) in one context; when the queue is drained h is
    registered, yet it is never called (fast = true, the code); without the fast path it is *)
 Theorem fastpath_drop_refuted :
-  let s := run_turns true fp_script 10 [1] init in
-  let s' := run_turns false fp_script 10 [1] init in
+  let s := run_turns true fp_script 10 [TRun 1] init in
+  let s' := run_turns false fp_script 10 [TRun 1] init in
   oof s = false /\ oof s' = false /\
   map h_key (snapshot 1 s) = [1] /\
   In (Invoke 1 2 1 []) (out s') /\ ~ In (Invoke 1 2 1 []) (out s).
 Proof. exact fastpath_drop_refuted_l. Qed.
 Print Assumptions fastpath_drop_refuted.
+
+(* ---- round 2 -------------------------------------------------------------------------------------- *)
+
+(* Calls into the other anchored APIs from inside a program (a handler, a completion callback, a context):
+   DelayManager.add / reset / remove / run_now and SwitchController.process_switch, nested to any depth.  Whatever the
+   program does, nothing is dispatched (disp unchanged), no completion callback is queued or run (cbq, pushed
+   unchanged), posts are only appended to event_queue, and the only observations are the callbacks run inline.  So the
+   callback that run_now runs, and what it posts, can never overtake the remaining handlers of the current event. *)
+Theorem inline_calls_never_dispatch :
+  forall fast sc pid s, exists o, hgrows s (fst (invoke fast sc pid s)) o /\ Forall is_sub o.
+Proof. exact invoke_grows. Qed.
+Print Assumptions inline_calls_never_dispatch.
+
+Example run_now_inside_handler :
+  let s := run_turns true rn_script 50 [TRun 10; TFire 7] init in
+  oof s = false /\ dly s = [] /\
+  out s = [Quiet 0 0; Ctx 10; Invoke 1 1 1 []; Invoke 2 2 2 []; Sub 9; Invoke 3 3 2 []; Invoke 4 4 3 [];
+           Invoke 5 5 4 []; Callback 0 20 []; Ctx (-1)].
+Proof. exact ex_run_now. Qed.
+Print Assumptions run_now_inside_handler.
+
+(* Every context - a scripted one or an expiring delay - that completes leaves event_queue and callback_queue empty:
+   everything it posted, transitively, including completion callbacks and what they post, has been dispatched before
+   the next callback of the loop (the next context) runs; in whatever state it started. *)
+Theorem every_context_is_drained :
+  forall fast sc f pid s,
+    oof (ctx fast sc f pid s) = false -> evq (ctx fast sc f pid s) = [] /\ cbq (ctx fast sc f pid s) = [].
+Proof. exact ctx_drained_l. Qed.
+Print Assumptions every_context_is_drained.
+
+Theorem every_turn_is_drained :
+  forall fast sc f t s, evq s = [] -> cbq s = [] -> oof (turn fast sc f t s) = false ->
+    evq (turn fast sc f t s) = [] /\ cbq (turn fast sc f t s) = [].
+Proof. exact turn_drained_l. Qed.
+Print Assumptions every_turn_is_drained.
+
+(* an expiring delay is a context like any other; its entry is dropped before the callback runs *)
+Theorem expiring_delay_is_a_context :
+  forall fast sc f n pid s, assoc n (dly s) = Some pid ->
+    turn fast sc f (TFire n) s = ctx fast sc f pid (set_dly (dly_del n (dly s)) s).
+Proof. exact fire_spec_l. Qed.
+Print Assumptions expiring_delay_is_a_context.
+
+(* _min_priority: exactly the handlers with a blocking facility and a priority below kwargs['_min_priority']['all'] or
+   below the entry of their own facility are skipped; nothing changes without the kwarg or without a facility *)
+Theorem min_priority_blocks_iff :
+  forall kwargs h m, kw_get KEY_MINPRIO kwargs = Some (VMap m) ->
+    (blocked kwargs h = true <->
+     h_bf h <> 0 /\ ((exists a, zz_get 0 m = Some a /\ h_prio h < a) \/
+                     (exists a, zz_get (h_bf h) m = Some a /\ h_prio h < a))).
+Proof. exact blocked_iff. Qed.
+Print Assumptions min_priority_blocks_iff.
+
+Theorem min_priority_absent_changes_nothing :
+  forall e kwargs hs, kw_get KEY_MINPRIO kwargs = None ->
+    expected_invocations e kwargs hs =
+    map (fun h => Invoke (h_key h) (h_pid h) e (merge kwargs (h_kw h)))
+        (filter (fun h => cond_holds (h_cond h) (merge kwargs (h_kw h))) hs).
+Proof. exact expected_without_min_priority. Qed.
+Print Assumptions min_priority_absent_changes_nothing.
+
+Theorem min_priority_ignores_handlers_without_facility :
+  forall kwargs h, h_bf h = 0 -> blocked kwargs h = false.
+Proof. exact blocked_no_facility. Qed.
+Print Assumptions min_priority_ignores_handlers_without_facility.
+
+Example min_priority_returned_by_a_handler :
+  let s := run_turns true mpr_script 50 [TRun 10] init in
+  oof s = false /\ script_plain mpr_script = false /\
+  out s = [Quiet 0 0; Ctx 10; Invoke 1 1 1 []; Invoke 2 2 1 [(KEY_MINPRIO, VMap [(0, 3)])];
+           Invoke 4 4 1 [(KEY_MINPRIO, VMap [(0, 3)])]; Callback 0 20 [(KEY_MINPRIO, VMap [(0, 3)])]].
+Proof. exact ex_min_priority_ret. Qed.
+Print Assumptions min_priority_returned_by_a_handler.
+
+Example min_priority_example :
+  let s := run_turns true mp_script 50 [TRun 10] init in
+  oof s = false /\
+  out s = [Quiet 0 0; Ctx 10; Invoke 1 1 1 [(KEY_MINPRIO, VMap [(0, 2); (1, 5)])];
+           Invoke 3 3 1 [(KEY_MINPRIO, VMap [(0, 2); (1, 5)])]; Invoke 5 5 1 [(KEY_MINPRIO, VMap [(0, 2); (1, 5)])]].
+Proof. exact ex_min_priority. Qed.
+Print Assumptions min_priority_example.
+
+(* queue events: the handlers from any point of the list on, until one waits or the list is done: the invocations so
+   far followed by what is still to be done are exactly the handlers of the list whose condition holds on the merged
+   kwargs (handler kwargs winning), each once, in list order; nothing is dispatched meanwhile *)
+Theorem queue_handlers_once_in_order :
+  forall fast sc e hs kwargs s,
+    exists o, hgrows s (fst (run_seq fast sc e hs kwargs s)) o /\ Forall (is_invoke e) o /\
+              invokes o ++ expected_queue e kwargs (rest_of (snd (run_seq fast sc e hs kwargs s))) =
+              expected_queue e kwargs hs.
+Proof. exact run_seq_spec. Qed.
+Print Assumptions queue_handlers_once_in_order.
+
+(* one step of the task of a queue event: it ends in a wait (no callback; the rest of the list is kept) or it ends the
+   task, and then the completion callback runs exactly once, after all remaining handlers, with the posted kwargs.
+   The handler list is the snapshot taken when the task starts (sorted: registry_sorted_invariant). *)
+Theorem queue_callback_after_all_waits :
+  forall fast sc tk s,
+    let hs := match t_todo tk with Some l => l | None => snapshot (t_ev tk) s end in
+    let s' := fst (task_step fast sc tk s) in
+    disp s' = disp s /\ cbq s' = cbq s /\
+    exists o, Forall (is_invoke (t_ev tk)) o /\
+      match snd (task_step fast sc tk s) with
+      | Some tk' =>
+          out s' = out s ++ o /\ t_wait tk' = true /\ t_id tk' = t_id tk /\ t_ev tk' = t_ev tk /\
+          t_cb tk' = t_cb tk /\ t_kw tk' = t_kw tk /\
+          exists tl, t_todo tk' = Some tl /\
+                     invokes o ++ expected_queue (t_ev tk) (t_kw tk) tl = expected_queue (t_ev tk) (t_kw tk) hs
+      | None =>
+          invokes o = expected_queue (t_ev tk) (t_kw tk) hs /\
+          match t_cb tk with
+          | Some cb => exists o2, out s' = out s ++ o ++ Callback (t_id tk) cb (t_kw tk) :: o2 /\ Forall is_sub o2
+          | None => out s' = out s ++ o
+          end
+      end.
+Proof. exact task_step_spec. Qed.
+Print Assumptions queue_callback_after_all_waits.
+
+Example queue_event_with_a_wait :
+  let s := qrun_turns true q_script 50 [TRun 10; TRun 11] init in
+  oof s = false /\ tasks s = [] /\
+  out s = [Quiet 0 0; Ctx 10; Invoke 1 1 1 [(1, VZ 7); (2, VZ 2)]; Invoke 2 2 1 [(1, VZ 1); (2, VZ 2)];
+           Invoke 4 4 2 [];
+           Quiet 0 0; Ctx 11; Invoke 3 3 1 [(1, VZ 1); (2, VZ 2)]; Callback 0 20 [(1, VZ 1); (2, VZ 2)]].
+Proof. exact ex_queue. Qed.
+Print Assumptions queue_event_with_a_wait.
+
+Example queue_task_step_hypotheses_satisfiable :
+  let s := fst (invoke true q_script 10 init) in
+  map h_key (snapshot 1 s) = [1; 2; 3] /\
+  match snd (task_step true q_script q_task s) with Some tk' => map h_key (rest_of (t_todo tk')) = [3] | None => False end.
+Proof. exact ex_task_step_hyp. Qed.
+Print Assumptions queue_task_step_hypotheses_satisfiable.
